@@ -9,19 +9,19 @@ package sample
 //@   nopanic[C05]
 //@   requires rand != nil
 //@   panic_unreachable_under_requires
-//@   modifies elems(buf)
+//@   modifies elems(buf), hstate(rand)
 
 //@ func sampleNeg
 //@   nopanic[C05]
 //@   requires rand != nil && bits >= 0
-//@   modifies nothing
+//@   modifies hstate(rand)
 //@   allocates
 //@   ensures result != nil
 
 //@ func ModN
 //@   nopanic[C05]
 //@   requires rand != nil && n != nil
-//@   modifies nothing
+//@   modifies hstate(rand)
 //@   allocates
 //@   ensures result != nil
 
@@ -29,7 +29,7 @@ package sample
 //@   nopanic[C05]
 //@   requires rand != nil && n != nil
 //@   panic_unreachable_under_requires
-//@   modifies nothing
+//@   modifies hstate(rand)
 //@   allocates
 //@   ensures result != nil
 
@@ -37,7 +37,7 @@ package sample
 //@   nopanic[C05]
 //@   requires rand != nil && n != nil
 //@   panic_unreachable_under_requires
-//@   modifies nothing
+//@   modifies hstate(rand)
 //@   allocates
 //@   ensures result != nil
 
